@@ -399,7 +399,11 @@ class Environment:
         for i in ('bfgdir', 'srcdir', 'builddir'):
             setattr(env, i, Path.from_json(data[i]).as_directory())
 
-        env.backend_version = Version(data['backend_version'])
+        # A backend whose version couldn't be determined is saved as 'None'.
+        backend_version = data['backend_version']
+        env.backend_version = (Version(backend_version)
+                               if backend_version not in (None, 'None')
+                               else None)
         env.install_dirs = {
             InstallRoot[k]: Path.from_json(v).as_directory() if v else None
             for k, v in data['install_dirs'].items()
